@@ -25,6 +25,12 @@ def Tk.kycOk (t : Tk) (addr : Nat) : Bool := t.kycIgnore || (t.kycApproved && t.
 def bankSend (s : State) (src dst : Nat) (amt : Int) : Option State :=
   (transfer s.bal src dst amt).map fun b => { s with bal := b }
 
+/-- baseapp's message atomicity: a failing (or panicking) handler leaves the state unchanged -/
+def commit (s : State) (r : Option State) : State × Res :=
+  match r with
+  | some s' => (s', .ok)
+  | none => (s, .err)
+
 -- ---------------------------------------------------------------------------------------------
 -- x/market
 
@@ -35,30 +41,38 @@ def allDistinct : List Nat → Bool
 /-- validateMarketTS -/
 def marketTSOk (time startTS endTS : Nat) : Bool := decide (endTS > time) && decide (startTS < endTS) && startTS != 0
 
+def isOpenStatus (st : Nat) : Bool := st == MS_ACTIVE || st == MS_INACTIVE
+
+def newBook (uid : Nat) (odds : List Nat) : Book :=
+  { uid := uid, oddsCount := odds.length,
+    queues := (odds.map fun o => (o, ([] : List Nat))).foldl (fun acc x => upsert (fun y => [y.1]) x acc) [] }
+
 /-- MsgAdd -/
+def marketAddO (s : State) (creator : Nat) (tk : Tk) (uid startTS endTS : Nat) (odds : List Nat) (status : Nat) : Option State := do
+  chk tk.ok
+  chk (marketTSOk s.time startTS endTS)
+  chk (isOpenStatus status)
+  chk (decide (2 ≤ odds.length))
+  chk (allDistinct odds)
+  chk (getMarket s uid).isNone
+  chk (getBook s uid).isNone
+  let m : Market := { uid := uid, creator := creator, startTS := startTS, endTS := endTS, odds := odds, status := status }
+  pure (setMarket (setBook s (newBook uid odds)) m)
+
 def marketAdd (s : State) (creator : Nat) (tk : Tk) (uid startTS endTS : Nat) (odds : List Nat) (status : Nat) : State × Res :=
-  if !tk.ok then (s, .err)
-  else if !marketTSOk s.time startTS endTS then (s, .err)
-  else if !(status == MS_ACTIVE || status == MS_INACTIVE) then (s, .err)
-  else if odds.length < 2 then (s, .err)
-  else if !allDistinct odds then (s, .err)
-  else if (getMarket s uid).isSome then (s, .err)
-  else if (getBook s uid).isSome then (s, .err)
-  else
-    let b : Book := { uid := uid, oddsCount := odds.length, queues := (odds.map fun o => (o, ([] : List Nat))).foldl (fun acc x => upsert (fun y => [y.1]) x acc) [] }
-    let m : Market := { uid := uid, creator := creator, startTS := startTS, endTS := endTS, odds := odds, status := status }
-    (setMarket (setBook s b) m, .ok)
+  commit s (marketAddO s creator tk uid startTS endTS odds status)
 
 /-- MsgUpdate -/
+def marketUpdateO (s : State) (tk : Tk) (uid startTS endTS status : Nat) : Option State := do
+  chk tk.ok
+  let m ← getMarket s uid
+  chk (isOpenStatus m.status)
+  chk (isOpenStatus status)
+  chk (marketTSOk s.time startTS endTS)
+  pure (setMarket s { m with startTS := startTS, endTS := endTS, status := status })
+
 def marketUpdate (s : State) (tk : Tk) (uid startTS endTS status : Nat) : State × Res :=
-  if !tk.ok then (s, .err)
-  else match getMarket s uid with
-    | none => (s, .err)
-    | some m =>
-      if !(m.status == MS_ACTIVE || m.status == MS_INACTIVE) then (s, .err)
-      else if !(status == MS_ACTIVE || status == MS_INACTIVE) then (s, .err)
-      else if !marketTSOk s.time startTS endTS then (s, .err)
-      else (setMarket s { m with startTS := startTS, endTS := endTS, status := status }, .ok)
+  commit s (marketUpdateO s tk uid startTS endTS status)
 
 /-- MarketResolutionTicketPayload.Validate (uid validity is assumed by the abstract ticket) -/
 def resolutionPayloadOk (status resolutionTS : Nat) (winners : List Nat) : Bool :=
@@ -67,107 +81,105 @@ def resolutionPayloadOk (status resolutionTS : Nat) (winners : List Nat) : Bool 
   resolutionTS != 0
 
 /-- MsgResolve -/
+def marketResolveO (s : State) (tk : Tk) (uid resolutionTS status : Nat) (winners : List Nat) : Option State := do
+  chk tk.ok
+  chk (resolutionPayloadOk status resolutionTS winners)
+  let m ← getMarket s uid
+  chk (isOpenStatus m.status)
+  chk (!(status == MS_DECLARED && (resolutionTS < m.startTS || !winners.all (fun w => m.odds.contains w))))
+  let m' := { m with resolutionTS := resolutionTS, status := status,
+                     winners := if status == MS_DECLARED then winners else m.winners }
+  pure (setMarket { s with mqueue := s.mqueue ++ [uid] } m')
+
 def marketResolve (s : State) (tk : Tk) (uid resolutionTS status : Nat) (winners : List Nat) : State × Res :=
-  if !tk.ok then (s, .err)
-  else if !resolutionPayloadOk status resolutionTS winners then (s, .err)
-  else match getMarket s uid with
-    | none => (s, .err)
-    | some m =>
-      if !(m.status == MS_ACTIVE || m.status == MS_INACTIVE) then (s, .err)
-      else if status == MS_DECLARED && (resolutionTS < m.startTS || !winners.all (fun w => m.odds.contains w)) then (s, .err)
-      else
-        let m' := { m with resolutionTS := resolutionTS, status := status,
-                           winners := if status == MS_DECLARED then winners else m.winners }
-        (setMarket { s with mqueue := s.mqueue ++ [uid] } m', .ok)
+  commit s (marketResolveO s tk uid resolutionTS status winners)
 
 -- ---------------------------------------------------------------------------------------------
 -- authz (contract level): GetAuthorization honours the expiry; Accept consumes the limit
 
+def grantIs (granter grantee kind : Nat) (g : Grant) : Bool :=
+  g.granter == granter && g.grantee == grantee && g.kind == kind
+
 def findGrant (s : State) (granter grantee kind : Nat) : Option Grant :=
-  s.grants.find? (fun g => g.granter == granter && g.grantee == grantee && g.kind == kind)
+  s.grants.find? (grantIs granter grantee kind)
 
 def dropGrant (s : State) (granter grantee kind : Nat) : State :=
-  { s with grants := s.grants.filter (fun g => !(g.granter == granter && g.grantee == grantee && g.kind == kind)) }
+  { s with grants := s.grants.filter (fun g => !grantIs granter grantee kind g) }
+
+def Grant.expired (g : Grant) (time : Nat) : Bool :=
+  match g.expiry with
+  | some t => decide (t < time)
+  | none => false
 
 /-- utils.ValidateMsgAuthorization with Deposit/WithdrawAuthorization.Accept -/
-def useGrant (s : State) (granter grantee kind : Nat) (amount : Int) : Option State :=
-  match findGrant s granter grantee kind with
-  | none => none
-  | some g =>
-    if (match g.expiry with | some t => decide (t < s.time) | none => false) then none
-    else if g.limit - amount < 0 then none
-    else if g.limit - amount = 0 then some (dropGrant s granter grantee kind)
-    else some { (dropGrant s granter grantee kind) with
-                grants := (dropGrant s granter grantee kind).grants ++ [{ g with limit := g.limit - amount }] }
+def useGrant (s : State) (granter grantee kind : Nat) (amount : Int) : Option State := do
+  let g ← findGrant s granter grantee kind
+  chk (!g.expired s.time)
+  chk (decide (0 ≤ g.limit - amount))
+  let s1 := dropGrant s granter grantee kind
+  pure (if g.limit - amount = 0 then s1 else { s1 with grants := s1.grants ++ [{ g with limit := g.limit - amount }] })
+
+/-- the authorization step of a delegated house message (no-op when the signer acts for itself) -/
+def grantStep (s : State) (delegated : Bool) (granter grantee kind : Nat) (amount : Int) : Option State :=
+  if delegated then useGrant s granter grantee kind amount else some s
 
 -- ---------------------------------------------------------------------------------------------
 -- x/house
 
-/-- MsgDeposit. `payloadDepositor = 0` stands for the empty string. -/
+/-- the depositor a MsgDeposit acts for: the payload's depositor when it names another account -/
+def depositFor (creator payloadDepositor : Nat) : Nat :=
+  if payloadDepositor != 0 && payloadDepositor != creator then payloadDepositor else creator
+
+/-- MsgDeposit. `payloadDepositor = 0` stands for the empty string. Returns the new participation index. -/
+def houseDepositO (s : State) (creator : Nat) (tk : Tk) (market : Nat) (amount : Int) (payloadDepositor : Nat) : Option (State × Nat) := do
+  chk (decide (0 < amount))                                    -- ValidateBasic
+  chk (decide (s.params.houseMin ≤ amount))                    -- ValidateSanity
+  chk tk.ok
+  let depositor := depositFor creator payloadDepositor
+  let s1 ← grantStep s (depositor != creator) depositor creator 0 amount
+  chk (tk.kycOk depositor)
+  let fee := (s.params.houseFee.mulInt amount).roundInt
+  let m ← getMarket s1 market
+  let b ← getBook s1 market
+  chk (m.status == MS_ACTIVE)
+  chk (b.status == OB_ACTIVE)
+  chk (decide (b.partCount < s.params.obMaxPart))
+  let liquidity := amount - fee
+  let s2 ← bankSend s1 depositor ACC_POOL liquidity
+  let s3 ← bankSend s2 depositor ACC_HOUSEFEE fee
+  let r := b.addParticipation depositor liquidity fee
+  let d : Deposit := { creator := creator, depositor := depositor, market := market, idx := r.2, amount := amount }
+  pure ({ (setBook s3 r.1) with deposits := upsert Deposit.key d s3.deposits }, r.2)
+
 def houseDeposit (s : State) (creator : Nat) (tk : Tk) (market : Nat) (amount : Int) (payloadDepositor : Nat) : State × Res × Nat :=
-  if amount ≤ 0 then (s, .err, 0)                                   -- ValidateBasic
-  else if amount < s.params.houseMin then (s, .err, 0)              -- ValidateSanity
-  else if !tk.ok then (s, .err, 0)
-  else
-    let onBehalf := payloadDepositor != 0 && payloadDepositor != creator
-    let depositor := if onBehalf then payloadDepositor else creator
-    match (if onBehalf then useGrant s depositor creator 0 amount else some s) with
-    | none => (s, .err, 0)
-    | some s1 =>
-      if !tk.kycOk depositor then (s, .err, 0)
-      else
-        let fee := (s.params.houseFee.mulInt amount).roundInt
-        match getMarket s1 market, getBook s1 market with
-        | some m, some b =>
-          if m.status != MS_ACTIVE then (s, .err, 0)
-          else if b.status != OB_ACTIVE then (s, .err, 0)
-          else if s.params.obMaxPart ≤ b.partCount then (s, .err, 0)
-          else
-            let liquidity := amount - fee
-            match bankSend s1 depositor ACC_POOL liquidity with
-            | none => (s, .err, 0)
-            | some s2 =>
-              match bankSend s2 depositor ACC_HOUSEFEE fee with
-              | none => (s, .err, 0)
-              | some s3 =>
-                let r := b.addParticipation depositor liquidity fee
-                let d : Deposit := { creator := creator, depositor := depositor, market := market, idx := r.2, amount := amount }
-                ({ (setBook s3 r.1) with deposits := upsert Deposit.key d s3.deposits }, .ok, r.2)
-        | _, _ => (s, .err, 0)
+  match houseDepositO s creator tk market amount payloadDepositor with
+  | some r => (r.1, .ok, r.2)
+  | none => (s, .err, 0)
 
 /-- MsgWithdraw -/
+def houseWithdrawO (s : State) (creator : Nat) (tk : Tk) (market idx mode : Nat) (amount : Int) (payloadDepositor : Nat) : Option State := do
+  chk (mode == WM_FULL || mode == WM_PARTIAL)
+  chk (decide (1 ≤ idx))
+  chk (!(mode == WM_PARTIAL && decide (amount ≤ 0)))
+  chk tk.ok
+  let onBehalf := payloadDepositor != 0
+  let depositor := if onBehalf then payloadDepositor else creator
+  chk (tk.kycOk depositor)
+  let d ← lookup Deposit.key [depositor, market, idx] s.deposits
+  let b ← getBook s market
+  chk (decide (d.wcount < s.params.houseMaxW))
+  let w ← calcWithdrawal b idx depositor mode amount d.wtotal
+  let s1 ← grantStep s onBehalf depositor creator 1 w
+  let p ← b.getPart idx
+  let s2 ← bankSend s1 ACC_POOL p.addr w
+  let b' ← b.withdraw idx w
+  let wd : Withdrawal := { id := d.wcount + 1, creator := creator, addr := depositor, market := market, idx := idx, amount := w, mode := mode }
+  let d' := { d with wcount := d.wcount + 1, wtotal := d.wtotal + w }
+  pure { (setBook s2 b') with withdrawals := upsert Withdrawal.key wd s2.withdrawals,
+                              deposits := upsert Deposit.key d' s2.deposits }
+
 def houseWithdraw (s : State) (creator : Nat) (tk : Tk) (market idx mode : Nat) (amount : Int) (payloadDepositor : Nat) : State × Res :=
-  if !(mode == WM_FULL || mode == WM_PARTIAL) then (s, .err)
-  else if idx < 1 then (s, .err)
-  else if mode == WM_PARTIAL && amount ≤ 0 then (s, .err)
-  else if !tk.ok then (s, .err)
-  else
-    let onBehalf := payloadDepositor != 0
-    let depositor := if onBehalf then payloadDepositor else creator
-    if !tk.kycOk depositor then (s, .err)
-    else match lookup Deposit.key [depositor, market, idx] s.deposits, getBook s market with
-      | some d, some b =>
-        if d.wcount ≥ s.params.houseMaxW then (s, .err)
-        else match calcWithdrawal b idx depositor mode amount d.wtotal with
-          | none => (s, .err)
-          | some w =>
-            match (if onBehalf then useGrant s depositor creator 1 w else some s) with
-            | none => (s, .err)
-            | some s1 =>
-              match b.getPart idx with
-              | none => (s, .err)
-              | some p =>
-                match bankSend s1 ACC_POOL p.addr w with
-                | none => (s, .err)
-                | some s2 =>
-                  match b.withdraw idx w with
-                  | none => (s, .err)
-                  | some b' =>
-                    let wd : Withdrawal := { id := d.wcount + 1, creator := creator, addr := depositor, market := market, idx := idx, amount := w, mode := mode }
-                    let d' := { d with wcount := d.wcount + 1, wtotal := d.wtotal + w }
-                    ({ (setBook s2 b') with withdrawals := upsert Withdrawal.key wd s2.withdrawals,
-                                             deposits := upsert Deposit.key d' s2.deposits }, .ok)
-      | _, _ => (s, .err)
+  commit s (houseWithdrawO s creator tk market idx mode amount payloadDepositor)
 
 -- ---------------------------------------------------------------------------------------------
 -- x/bet : wager
@@ -185,72 +197,58 @@ deriving Repr, Inhabited
 def multOk (m : Dec) : Bool := decide (0 < m.raw) && decide (m.raw ≤ PREC)
 
 /-- MsgWager -/
+def wagerO (s : State) (creator : Nat) (tk : Tk) (uid : Nat) (amount : Int) (pl : WagerPayload) : Option State := do
+  chk (decide (0 < amount))                                                 -- WagerValidation
+  chk (!s.bets.any (fun b => b.uid == uid))                                 -- duplicate UID
+  chk tk.ok
+  chk pl.oddsTypeOk
+  chk (multOk pl.mult)
+  chk (pl.allOdds.all (fun o => multOk o.2))
+  chk (tk.kycOk creator)
+  let m ← getMarket s pl.market
+  chk (m.status == MS_ACTIVE)
+  chk (decide (s.time ≤ m.endTS))
+  chk (m.odds.contains pl.odds)
+  chk (m.odds.length == (pl.allOdds.map (·.1)).eraseDups.length)
+  chk (m.odds.all (fun o => pl.allOdds.any (fun x => x.1 == o)))
+  chk (decide (s.params.betMin ≤ amount))
+  let fee := s.params.betFee
+  let amt := amount - fee
+  let ov ← pl.oddsVal
+  chk (decide (PREC < ov.raw))                                               -- odds must be > 1
+  let payoutProfit := (ov.mulInt amt).sub (Dec.ofInt amt)
+  let betId := s.betCount + 1
+  let b ← getBook s pl.market
+  let r ← processWager b pl.odds betId ov pl.mult m.odds pl.allOdds (s.params.obThreshold : Nat) amt payoutProfit
+  let s1 ← bankSend s creator ACC_BETFEE fee
+  let s2 ← bankSend s1 creator ACC_POOL r.2.2
+  let bet : Bet := { uid := uid, id := betId, creator := creator, market := pl.market, odds := pl.odds,
+                     oddsVal := ov, amount := (r.2.1.map (·.bet)).sum, fee := fee, status := BS_PLACED, result := BR_PENDING,
+                     mult := pl.mult, createdAt := s.time, fulfs := r.2.1 }
+  pure { (setBook s2 r.1) with bets := upsert Bet.key bet s2.bets,
+                               pending := upsert (fun x => [x.1, x.2.1]) (pl.market, betId, uid, creator) s2.pending,
+                               betCount := betId }
+
 def wager (s : State) (creator : Nat) (tk : Tk) (uid : Nat) (amount : Int) (pl : WagerPayload) : State × Res :=
-  if amount ≤ 0 then (s, .err)                                                  -- WagerValidation
-  else if s.bets.any (fun b => b.uid == uid) then (s, .err)                    -- duplicate UID
-  else if !tk.ok then (s, .err)
-  else if !pl.oddsTypeOk then (s, .err)
-  else if !multOk pl.mult then (s, .err)
-  else if !pl.allOdds.all (fun o => multOk o.2) then (s, .err)
-  else if !tk.kycOk creator then (s, .err)
-  else match getMarket s pl.market with
-    | none => (s, .err)
-    | some m =>
-      if m.status != MS_ACTIVE then (s, .err)
-      else if m.endTS < s.time then (s, .err)
-      else if !m.odds.contains pl.odds then (s, .err)
-      else if m.odds.length != (pl.allOdds.map (·.1)).eraseDups.length then (s, .err)
-      else if !m.odds.all (fun o => pl.allOdds.any (fun x => x.1 == o)) then (s, .err)
-      else if amount < s.params.betMin then (s, .err)
-      else
-        let fee := s.params.betFee
-        let amt := amount - fee
-        match pl.oddsVal with
-        | none => (s, .err)
-        | some ov =>
-          if ov.raw ≤ PREC then (s, .err)                                       -- odds must be > 1
-          else
-            let payoutProfit := (ov.mulInt amt).sub (Dec.ofInt amt)
-            let betId := s.betCount + 1
-            match getBook s pl.market with
-            | none => (s, .err)
-            | some b =>
-              match processWager b pl.odds betId ov pl.mult m.odds pl.allOdds (s.params.obThreshold : Nat) amt payoutProfit with
-              | none => (s, .err)
-              | some (b', fulfs, taken) =>
-                match bankSend s creator ACC_BETFEE fee with
-                | none => (s, .err)
-                | some s1 =>
-                  match bankSend s1 creator ACC_POOL taken with
-                  | none => (s, .err)
-                  | some s2 =>
-                    let bet : Bet := { uid := uid, id := betId, creator := creator, market := pl.market, odds := pl.odds,
-                                       oddsVal := ov, amount := (fulfs.map (·.bet)).sum, fee := fee, status := BS_PLACED, result := BR_PENDING,
-                                       mult := pl.mult, createdAt := s.time, fulfs := fulfs }
-                    ({ (setBook s2 b') with bets := upsert Bet.key bet s2.bets,
-                                            pending := upsert (fun x => [x.1, x.2.1]) (pl.market, betId, uid, creator) s2.pending,
-                                            betCount := betId }, .ok)
+  commit s (wagerO s creator tk uid amount pl)
 
 -- ---------------------------------------------------------------------------------------------
 -- x/bet : settlement (EndBlocker)
 
-/-- BettorLoses / BettorWins on the book: `none` = participation not found or pool short -/
+/-- BettorLoses on the book: `none` = participation not found -/
 def bettorLoses (b : Book) : List Fulf → Option Book
   | [] => some b
-  | f :: rest =>
-    match b.getPart f.idx with
-    | none => none
-    | some p => bettorLoses (b.setPart { p with actualProfit := p.actualProfit + f.bet }) rest
+  | f :: rest => do
+    let p ← b.getPart f.idx
+    bettorLoses (b.setPart { p with actualProfit := p.actualProfit + f.bet }) rest
 
+/-- BettorWins: pays stake + profit of every part from the pool; `none` = not found or pool short -/
 def bettorWins (bal : List (Nat × Int)) (bettor : Nat) (b : Book) : List Fulf → Option (List (Nat × Int) × Book)
   | [] => some (bal, b)
-  | f :: rest =>
-    match b.getPart f.idx with
-    | none => none
-    | some p =>
-      match transfer bal ACC_POOL bettor (f.profit + f.bet) with
-      | none => none
-      | some bal' => bettorWins bal' bettor (b.setPart { p with actualProfit := p.actualProfit - f.profit }) rest
+  | f :: rest => do
+    let p ← b.getPart f.idx
+    let bal' ← transfer bal ACC_POOL bettor (f.profit + f.bet)
+    bettorWins bal' bettor (b.setPart { p with actualProfit := p.actualProfit - f.profit }) rest
 
 /-- updateSettlementState -/
 def markSettled (s : State) (bet : Bet) : State :=
@@ -259,110 +257,107 @@ def markSettled (s : State) (bet : Bet) : State :=
            pending := remove (fun x => [x.1, x.2.1]) [bet.market, bet.id] s.pending,
            settled := upsert (fun x => [x.1, x.2.1]) (s.height, bet.id, bet.uid, bet.creator) s.settled }
 
-/-- Settle: `none` = error (in the end-blocker: halt) -/
-def settleBet (s : State) (creator uid : Nat) : Option State :=
-  match s.bets.find? (fun b => b.uid == uid) with
-  | none => none
-  | some bet0 =>
-    match lookup Bet.key [creator, bet0.id] s.bets with
-    | none => none
-    | some bet =>
-      if bet.status == BS_SETTLED || bet.status == BS_CANCELED then none
-      else match getMarket s bet.market with
-        | none => none
-        | some m =>
-          if m.status == MS_ABORTED || m.status == MS_CANCELED then
-            match bankSend s ACC_POOL bet.creator bet.amount with
-            | none => none
-            | some s1 =>
-              match bankSend s1 ACC_BETFEE bet.creator bet.fee with
-              | none => none
-              | some s2 => some (markSettled s2 { bet with status := BS_SETTLED, result := BR_REFUNDED })
-          else if m.status != MS_DECLARED then none
-          else
-            match getBook s bet.market with
-            | none => none
-            | some b =>
-              let won := m.winners.contains bet.odds
-              match (if won then bettorWins s.bal bet.creator b bet.fulfs else (bettorLoses b bet.fulfs).map fun b' => (s.bal, b')) with
-              | none => none
-              | some (bal', b') =>
-                let s1 := setBook { s with bal := bal' } b'
-                match bankSend s1 ACC_BETFEE m.creator bet.fee with
-                | none => none
-                | some s2 => some (markSettled s2 { bet with status := BS_SETTLED, result := if won then BR_WON else BR_LOST })
+/-- the refund branch of Settle (market cancelled or aborted) -/
+def settleRefund (s : State) (bet : Bet) : Option State := do
+  let s1 ← bankSend s ACC_POOL bet.creator bet.amount
+  let s2 ← bankSend s1 ACC_BETFEE bet.creator bet.fee
+  pure (markSettled s2 { bet with status := BS_SETTLED, result := BR_REFUNDED })
 
-/-- batchMarketSettlement: settle the first `n` pending bets of the market (page snapshot) -/
+/-- settleResolved: pay a winner, or book the stakes of a loser -/
+def settleOutcome (bal : List (Nat × Int)) (won : Bool) (bettor : Nat) (b : Book) (fulfs : List Fulf) : Option (List (Nat × Int) × Book) :=
+  if won then bettorWins bal bettor b fulfs else (bettorLoses b fulfs).map fun b' => (bal, b')
+
+/-- the declared-result branch of Settle -/
+def settleDeclared (s : State) (bet : Bet) (m : Market) : Option State := do
+  let b ← getBook s bet.market
+  let won := m.winners.contains bet.odds
+  let r ← settleOutcome s.bal won bet.creator b bet.fulfs
+  let s1 := setBook { s with bal := r.1 } r.2
+  let s2 ← bankSend s1 ACC_BETFEE m.creator bet.fee
+  pure (markSettled s2 { bet with status := BS_SETTLED, result := if won then BR_WON else BR_LOST })
+
+/-- Settle: `none` = error (in the end-blocker: halt) -/
+def settleBet (s : State) (creator uid : Nat) : Option State := do
+  let bet0 ← s.bets.find? (fun b => b.uid == uid)
+  let bet ← lookup Bet.key [creator, bet0.id] s.bets
+  chk (!(bet.status == BS_SETTLED || bet.status == BS_CANCELED))
+  let m ← getMarket s bet.market
+  if m.status == MS_ABORTED || m.status == MS_CANCELED then settleRefund s bet
+  else do
+    chk (m.status == MS_DECLARED)
+    settleDeclared s bet m
+
+/-- batchMarketSettlement: settle the bets of one page (the first `n` pending bets of the market) -/
 def settlePage (s : State) : List (Nat × Nat × Nat × Nat) → Option (State × Nat)
   | [] => some (s, 0)
-  | pb :: rest =>
-    match settleBet s pb.2.2.2 pb.2.2.1 with
-    | none => none
-    | some s1 => (settlePage s1 rest).map fun r => (r.1, r.2 + 1)
+  | pb :: rest => do
+    let s1 ← settleBet s pb.2.2.2 pb.2.2.1
+    let r ← settlePage s1 rest
+    pure (r.1, r.2 + 1)
 
 /-- SetOrderBookAsUnsettledResolved -/
-def bookResolved (s : State) (uid : Nat) : Option State :=
-  match getBook s uid with
-  | none => none
-  | some b =>
-    if b.status != OB_ACTIVE then none
-    else some { (setBook s { b with status := OB_RESOLVED }) with obqueue := s.obqueue ++ [uid] }
+def bookResolved (s : State) (uid : Nat) : Option State := do
+  let b ← getBook s uid
+  chk (b.status == OB_ACTIVE)
+  pure { (setBook s { b with status := OB_RESOLVED }) with obqueue := s.obqueue ++ [uid] }
 
-/-- BatchMarketSettlements; `fuel` bounds the loop (|queue| + batch size + 1 suffices) -/
+/-- one iteration of BatchMarketSettlements for the market at the head of the queue: returns the new state
+    and the number of bets settled -/
+def betEndBlockStep (s : State) (mk : Nat) (toFetch : Nat) : Option (State × Nat) := do
+  let page := (s.pending.filter (fun x => x.1 == mk)).take toFetch
+  let r ← settlePage s page
+  if r.1.pending.any (fun x => x.1 == mk) then pure r
+  else do
+    let q ← goRemove r.1.mqueue mk
+    let s2 ← bookResolved { r.1 with mqueue := q } mk
+    pure (s2, r.2)
+
+/-- BatchMarketSettlements; `fuel` bounds the loop (|queue| + 1 suffices) -/
 def betEndBlock : Nat → State → Nat → Option State
   | 0, s, _ => some s
   | fuel + 1, s, toFetch =>
     if toFetch = 0 then some s
     else match s.mqueue with
       | [] => some s
-      | mk :: _ =>
-        let page := (s.pending.filter (fun x => x.1 == mk)).take toFetch
-        match settlePage s page with
-        | none => none
-        | some (s1, cnt) =>
-          if s1.pending.any (fun x => x.1 == mk) then betEndBlock fuel s1 (toFetch - cnt)
-          else
-            match goRemove s1.mqueue mk with
-            | none => none
-            | some q =>
-              match bookResolved { s1 with mqueue := q } mk with
-              | none => none
-              | some s2 => betEndBlock fuel s2 (toFetch - cnt)
+      | mk :: _ => do
+        let r ← betEndBlockStep s mk toFetch
+        betEndBlock fuel r.1 (toFetch - r.2)
 
 -- ---------------------------------------------------------------------------------------------
 -- x/orderbook : settlement (EndBlocker)
 
+/-- what a participation is paid from the pool: liquidity ± realised profit on a declared result, else liquidity -/
+def Part.payout (p : Part) (m : Market) : Int :=
+  if m.status == MS_DECLARED then p.liq + p.actualProfit else p.liq
+
+/-- fee back to the depositor iff cancelled/aborted or the participation never received any stake -/
+def Part.feeToDepositor (p : Part) (m : Market) : Bool :=
+  if m.status == MS_DECLARED then decide (p.totalBet = 0) else true
+
 /-- settleParticipation -/
-def settlePart (s : State) (b : Book) (p : Part) (m : Market) : Option (State × Book) :=
-  if p.isSettled then none
-  else
-    let declared := m.status == MS_DECLARED
-    if !(declared || m.status == MS_CANCELED || m.status == MS_ABORTED) then none
-    else
-      let ret := if declared then p.liq + p.actualProfit else p.liq
-      match bankSend s ACC_POOL p.addr ret with
-      | none => none
-      | some s1 =>
-        let feeToDepositor := if declared then decide (p.totalBet = 0) else true
-        if feeToDepositor then
-          match bankSend s1 ACC_HOUSEFEE p.addr p.fee with
-          | none => none
-          | some s2 => some (s2, b.setPart { p with returned := ret + p.fee, reimbursedFee := p.fee, isSettled := true })
-        else
-          match bankSend s1 ACC_HOUSEFEE m.creator p.fee with
-          | none => none
-          | some s2 => some (s2, b.setPart { p with returned := ret, isSettled := true })
+def settlePart (s : State) (b : Book) (p : Part) (m : Market) : Option (State × Book) := do
+  chk (!p.isSettled)
+  chk (m.status == MS_DECLARED || m.status == MS_CANCELED || m.status == MS_ABORTED)
+  let ret := p.payout m
+  let s1 ← bankSend s ACC_POOL p.addr ret
+  if p.feeToDepositor m then do
+    let s2 ← bankSend s1 ACC_HOUSEFEE p.addr p.fee
+    pure (s2, b.setPart { p with returned := ret + p.fee, reimbursedFee := p.fee, isSettled := true })
+  else do
+    let s2 ← bankSend s1 ACC_HOUSEFEE m.creator p.fee
+    pure (s2, b.setPart { p with returned := ret, isSettled := true })
+
+/-- one step of the participation loop: settle the participation unless it already is -/
+def settleOne (s : State) (b : Book) (p : Part) (m : Market) (settledCount : Nat) : Option (State × Book × Nat) :=
+  if !p.isSettled then (settlePart s b p m).map fun r => (r.1, r.2, settledCount + 1) else some (s, b, settledCount)
 
 /-- batchSettlementOfParticipation: returns (state, book, settledCount, processed) -/
 def settleParts (m : Market) (count : Nat) : List Part → State → Book → Nat → Nat → Option (State × Book × Nat × Nat)
   | [], s, b, settledCount, processed => some (s, b, settledCount, processed)
-  | p :: rest, s, b, settledCount, processed =>
-    let processed := processed + 1
-    match (if !p.isSettled then (settlePart s b p m).map fun r => (r.1, r.2, settledCount + 1) else some (s, b, settledCount)) with
-    | none => none
-    | some (s1, b1, sc) =>
-      if sc ≥ count then some (s1, b1, sc, processed)
-      else settleParts m count rest s1 b1 sc processed
+  | p :: rest, s, b, settledCount, processed => do
+    let r ← settleOne s b p m settledCount
+    if r.2.2 ≥ count then pure (r.1, r.2.1, r.2.2, processed + 1)
+    else settleParts m count rest r.1 r.2.1 r.2.2 (processed + 1)
 
 /-- BatchOrderBookSettlements -/
 def obEndBlock : Nat → State → Nat → Nat → Option State
@@ -371,27 +366,24 @@ def obEndBlock : Nat → State → Nat → Nat → Option State
     if toFetch = 0 then some s
     else match s.obqueue[index]? with
       | none => some s
-      | some uid =>
-        match getBook s uid, getMarket s uid with
-        | some b, some m =>
-          if b.status != OB_RESOLVED then none
-          else match settleParts m toFetch b.parts s b 0 0 with
-            | none => none
-            | some (s1, b1, sc, processed) =>
-              if processed == b.parts.length then
-                match goRemove s1.obqueue uid with
-                | none => none
-                | some q => obEndBlock fuel (setBook { s1 with obqueue := q } { b1 with status := OB_SETTLED }) (toFetch - sc) index
-              else obEndBlock fuel (setBook s1 b1) (toFetch - sc) (index + 1)
-        | _, _ => none
+      | some uid => do
+        let b ← getBook s uid
+        let m ← getMarket s uid
+        chk (b.status == OB_RESOLVED)
+        let r ← settleParts m toFetch b.parts s b 0 0
+        if r.2.2.2 == b.parts.length then do
+          let q ← goRemove r.1.obqueue uid
+          obEndBlock fuel (setBook { r.1 with obqueue := q } { r.2.1 with status := OB_SETTLED }) (toFetch - r.2.2.1) index
+        else obEndBlock fuel (setBook r.1 r.2.1) (toFetch - r.2.2.1) (index + 1)
 
 /-- the end-blockers of the core modules in app order: bet, then orderbook -/
+def endBlockO (s : State) : Option State := do
+  let s1 ← betEndBlock (s.mqueue.length + 1) s s.params.betBatch
+  obEndBlock (s1.obqueue.length + 1) s1 s.params.obBatch 0
+
 def endBlock (s : State) : State × Res :=
-  match betEndBlock (s.mqueue.length + s.params.betBatch + 1) s s.params.betBatch with
+  match endBlockO s with
+  | some s' => (s', .ok)
   | none => (s, .halt)
-  | some s1 =>
-    match obEndBlock (s1.obqueue.length + 1) s1 s.params.obBatch 0 with
-    | none => (s, .halt)
-    | some s2 => (s2, .ok)
 
 end Sge.Core
